@@ -264,7 +264,6 @@ func runC04(c *Ctx) {
 	// mutator applied to a private copy must not write through to the object another caller holds
 	c.Import(runC19, "R19.3", "pkg/resource.Finalizers)", "R04.10", "E3", "Finalizers.Add/Remove write only to storage created in the same call: an attempt that is later rejected leaves no trace in shared metadata", 2)
 
-
 	// ---------- error discipline (E8)
 	errDisciplineFor(c, "C04")
 
